@@ -115,7 +115,7 @@ def run_views(prop: str, repo_root: str, overrides, tier: str):
     ctx_b = Ctx(prop, repo_b, tier)
     from . import common as _common
 
-    _common.FLATTEN_RETURNS = os.environ.get("SA_FLATTEN_CANON_RETURNS") == "1"
+    _common.FLATTEN_RETURNS = os.environ.get("SA_FLATTEN_CANON_RETURNS", "1") == "1"  # exits of a merged conditional return are judged one by one in the canonical view
     try:
         mod.run(ctx_b)
     except Exception:
